@@ -946,9 +946,12 @@ impl File {
 
 impl std::io::Read for File {
     fn read(&mut self, buf: &mut [u8]) -> Result<usize> {
-        let mut cursor = self.cursor.lock().unwrap();
-        let n = self.read_at_internal(buf, *cursor)?;
-        *cursor += n as u64;
+        // The read may fire the corruption hook, which runs user code (a
+        // barrier may panic on purpose): do not hold the cursor lock across
+        // it, or that panic poisons the handle for every later read and seek.
+        let offset = *self.cursor.lock().unwrap();
+        let n = self.read_at_internal(buf, offset)?;
+        *self.cursor.lock().unwrap() = offset + n as u64;
         Ok(n)
     }
 }
